@@ -745,7 +745,10 @@ class VarInliner:
                 last = max(j for j, t in enumerate(later)
                            if any(isinstance(x, ast.Name) and x.id == v for x in ast.walk(t)))
                 span = later[:last + 1]
-                if self._mutated(v, span):
+                # an alias of an existing object (`a = self.x`, `t = cells['mins']`: a call-free attribute / subscript
+                # chain) names the same object: changing it in place through the alias or through the chain is the same
+                alias = _projectable(s.value) and not isinstance(s.value, ast.Name)
+                if self._mutated(v, span) and not alias:
                     continue
                 if not (is_pure(s.value) and self._undisturbed(s.value, span)):
                     # the single use is the first thing the next statement evaluates: nothing can come between
@@ -813,7 +816,9 @@ class VarInliner:
                         txt = ast.unparse(x)
                     except Exception:
                         return False
-                    if any(_path_prefix(txt, p) or _path_prefix(p, txt) for p in paths):
+                    # a store *to* (a prefix of) a path the expression reads re-binds it; a store *under* such a path
+                    # changes what it holds — but a store under the bare root (`self.other = ..`) touches neither
+                    if any(_path_prefix(txt, p) or (("." in p or "[" in p) and _path_prefix(p, txt)) for p in paths):
                         return False
                     base = x
                     while isinstance(base, (ast.Attribute, ast.Subscript)):
@@ -979,6 +984,40 @@ class _Idioms(ast.NodeTransformer):
         one the repository itself uses), so that rules and interpreters know a single form"""
         kw = {k.arg: k.value for k in n.keywords if k.arg}
         mod, _, name = f.rpartition(".")
+        # tqdm(X, ...)  ->  X   (a progress bar around an iterable yields the same elements in the same order)
+        if f in ("tqdm", "tqdm.tqdm") and n.args:
+            self.applied.append("tqdm")
+            return n.args[0]
+        # map(f, X)  ->  (f(m) for m in X);  filter(p, X)  ->  (m for m in X if p(m));  list(<genexp>)  ->  [...]
+        if f in ("map", "filter") and len(n.args) == 2 and not n.keywords and \
+                isinstance(n.args[0], (ast.Name, ast.Attribute, ast.Lambda)):
+            fn_, seq = n.args
+            var = "_m"
+            used = {x.id for x in ast.walk(n) if isinstance(x, ast.Name)}
+            k = 0
+            while var in used:
+                k += 1
+                var = f"_m{k}"
+            if isinstance(fn_, ast.Lambda):
+                la = fn_.args
+                if len(la.args) != 1 or la.vararg or la.kwarg or la.kwonlyargs or la.defaults:
+                    fn_ = None
+                else:
+                    applied_ = _SubstLoad(la.args[0].arg, ast.Name(id=var, ctx=ast.Load())).visit(copy.deepcopy(fn_.body))
+            else:
+                applied_ = ast.Call(func=fn_, args=[ast.Name(id=var, ctx=ast.Load())], keywords=[])
+            if fn_ is not None:
+                self.applied.append(f)
+                if f == "map":
+                    elt, ifs = applied_, []
+                else:
+                    elt, ifs = ast.Name(id=var, ctx=ast.Load()), [applied_]
+                g = ast.GeneratorExp(elt=elt, generators=[ast.comprehension(
+                    target=ast.Name(id=var, ctx=ast.Store()), iter=seq, ifs=ifs, is_async=0)])
+                return self.visit(ast.fix_missing_locations(ast.copy_location(g, n)))
+        if f == "list" and len(n.args) == 1 and not n.keywords and isinstance(n.args[0], ast.GeneratorExp):
+            self.applied.append("list-genexp")
+            return ast.ListComp(elt=n.args[0].elt, generators=n.args[0].generators)
         # dict(a=1, b=2)  ->  {'a': 1, 'b': 2};  dict(base, a=1)  ->  {**base, 'a': 1}
         if f == "dict" and len(n.args) <= 1 and all(k.arg for k in n.keywords) and (n.args or n.keywords) and \
                 not any(isinstance(a, ast.Starred) for a in n.args):
@@ -1156,6 +1195,18 @@ class _Idioms(ast.NodeTransformer):
                 merged.append(x)
         self.applied.append("str-concat")
         return ast.fix_missing_locations(ast.copy_location(ast.JoinedStr(values=merged), n))
+
+    def visit_Compare(self, n):
+        self.generic_visit(n)
+        # a <= b < c  ->  a <= b and b < c   (call-free middle operands: evaluated twice without effect)
+        if len(n.ops) > 1 and not any(has_call(c) for c in n.comparators[:-1]):
+            parts, left = [], n.left
+            for op, right in zip(n.ops, n.comparators):
+                parts.append(ast.Compare(left=copy.deepcopy(left), ops=[op], comparators=[right]))
+                left = right
+            self.applied.append("chained-compare")
+            return ast.fix_missing_locations(ast.copy_location(ast.BoolOp(op=ast.And(), values=parts), n))
+        return n
 
     def visit_Dict(self, n):
         self.generic_visit(n)
@@ -1450,6 +1501,26 @@ def io_comprehensions_to_loops(tree):
     return applied
 
 
+def ifexp_to_if(tree):
+    """`x = a if c else b` (statement level, one plain target)  ->  `if c: x = a` / `else: x = b`"""
+    applied = []
+    for x in ast.walk(tree):
+        for fld in ("body", "orelse", "finalbody"):
+            blk = getattr(x, fld, None)
+            if not (isinstance(blk, list) and blk and isinstance(blk[0], ast.stmt)):
+                continue
+            for i, s in enumerate(blk):
+                if isinstance(s, ast.Assign) and len(s.targets) == 1 and isinstance(s.value, ast.IfExp) and \
+                        isinstance(s.targets[0], (ast.Name, ast.Attribute)):
+                    t = s.targets[0]
+                    a = ast.Assign(targets=[copy.deepcopy(t)], value=s.value.body)
+                    b = ast.Assign(targets=[copy.deepcopy(t)], value=s.value.orelse)
+                    new = ast.If(test=s.value.test, body=[ast.copy_location(a, s)], orelse=[ast.copy_location(b, s)])
+                    blk[i] = ast.fix_missing_locations(ast.copy_location(new, s))
+                    applied.append("ifexp")
+    return applied
+
+
 def update_to_stores(tree):
     """`d.update({'a': x, 'b': y})` as a statement  ->  `d['a'] = x; d['b'] = y` (constant keys, in order)"""
     applied = []
@@ -1559,7 +1630,7 @@ def normalise_idioms(tree):
     t = _Idioms()
     t.visit(tree)
     ast.fix_missing_locations(tree)
-    return t.applied + continue_guards_to_ifs(tree) + extend_to_appends(tree) + update_to_stores(tree) + drop_dead_containers(tree) + io_comprehensions_to_loops(tree) + loops_to_comprehensions(tree)
+    return t.applied + ifexp_to_if(tree) + continue_guards_to_ifs(tree) + extend_to_appends(tree) + update_to_stores(tree) + drop_dead_containers(tree) + io_comprehensions_to_loops(tree) + loops_to_comprehensions(tree)
 
 
 def _literal(e):
@@ -1570,6 +1641,97 @@ def _literal(e):
     if isinstance(e, ast.Tuple) and e.elts and all(_literal(x) for x in e.elts):
         return True
     return False
+
+
+STD_FROM = {"shutil", "re", "time", "sys", "pickle", "itertools", "glob", "multiprocessing", "argparse", "traceback"}
+
+
+def normalise_imports(relpath, tree):
+    """one spelling for imported names: numpy is `np`, `os.path.f` / `os.f` / `multiprocessing.Pool` / `shutil.f` … are
+    written through their module, functions of the package's own modules by their bare name — whatever import form
+    (`from os.path import join`, `import numpy as xp`, `from amr_kitchen import utils`) the module uses"""
+    applied = []
+    names = {}        # local name -> replacement expression (ast) for Load uses
+    attr_strip = set()   # local names of package modules: X.f -> f
+    need = {}         # canonical import statements to add: key -> ast stmt
+    pkg_funcs = {}    # bare name -> module, for synthetic from-imports
+
+    def dotted(text):
+        return _dotted(text)
+
+    for st in ast.walk(tree):
+        if isinstance(st, ast.Import):
+            for a in st.names:
+                if a.name in ("numpy",) and (a.asname or a.name) != "np":
+                    names[a.asname or a.name] = dotted("np")
+                    need["np"] = ast.Import(names=[ast.alias(name="numpy", asname="np")])
+                elif a.name == "os.path" and a.asname:
+                    names[a.asname] = dotted("os.path")
+                    need["os"] = ast.Import(names=[ast.alias(name="os")])
+                elif a.name.startswith("amr_kitchen.") and a.asname:
+                    attr_strip.add(a.asname)
+                    pkg_funcs[a.asname] = a.name
+        elif isinstance(st, ast.ImportFrom) and st.module is not None or isinstance(st, ast.ImportFrom) and st.level:
+            mod = st.module or ""
+            for a in st.names:
+                local = a.asname or a.name
+                if a.name == "*":
+                    continue
+                if mod == "numpy" and st.level == 0:
+                    names[local] = dotted(f"np.{a.name}")
+                    need["np"] = ast.Import(names=[ast.alias(name="numpy", asname="np")])
+                elif mod == "os.path" and st.level == 0:
+                    names[local] = dotted(f"os.path.{a.name}")
+                    need["os"] = ast.Import(names=[ast.alias(name="os")])
+                elif mod == "os" and st.level == 0:
+                    names[local] = dotted(f"os.{a.name}")
+                    need["os"] = ast.Import(names=[ast.alias(name="os")])
+                elif mod in STD_FROM and st.level == 0:
+                    names[local] = dotted(f"{mod}.{a.name}")
+                    need[mod] = ast.Import(names=[ast.alias(name=mod)])
+                elif (mod == "amr_kitchen" or (st.level and not mod)) and a.name in ("utils",):
+                    attr_strip.add(local)
+                    base = "amr_kitchen" if not st.level else ".".join(relpath[:-3].split("/")[:-st.level])
+                    pkg_funcs[local] = f"{base}.{a.name}"
+    if not names and not attr_strip:
+        return applied
+    # names re-bound anywhere in the module as ordinary variables are left alone
+    rebound = {x.id for x in ast.walk(tree) if isinstance(x, ast.Name) and isinstance(x.ctx, (ast.Store, ast.Del))} | \
+        {a.arg for x in ast.walk(tree) if isinstance(x, ast.arguments) for a in x.args + x.kwonlyargs + x.posonlyargs}
+    names = {k: v for k, v in names.items() if k not in rebound}
+    attr_strip = {k for k in attr_strip if k not in rebound}
+    used_pkg = {}
+
+    class T(ast.NodeTransformer):
+        def visit_Attribute(self, n):
+            self.generic_visit(n)
+            if isinstance(n.value, ast.Name) and n.value.id in attr_strip and isinstance(n.ctx, ast.Load):
+                used_pkg.setdefault(pkg_funcs[n.value.id], set()).add(n.attr)
+                return ast.copy_location(ast.Name(id=n.attr, ctx=ast.Load()), n)
+            return n
+
+        def visit_Name(self, n):
+            if isinstance(n.ctx, ast.Load) and n.id in names:
+                return ast.copy_location(copy.deepcopy(names[n.id]), n)
+            return n
+    for st in tree.body:
+        if not isinstance(st, (ast.Import, ast.ImportFrom)):
+            T().visit(st)
+    have = set()
+    for st in tree.body:
+        if isinstance(st, ast.Import):
+            for a in st.names:
+                have.add(a.asname or a.name.split(".")[0])
+    k = 1 if tree.body and isinstance(tree.body[0], ast.Expr) and isinstance(tree.body[0].value, ast.Constant) else 0
+    for key, stmt in need.items():
+        if key not in have:
+            tree.body.insert(k, stmt)
+    for mod, fs in used_pkg.items():
+        tree.body.insert(k, ast.ImportFrom(module=mod, names=[ast.alias(name=f) for f in sorted(fs)], level=0))
+    ast.fix_missing_locations(tree)
+    if names or used_pkg:
+        applied.append(("<module>", "imports", ",".join(sorted(list(names) + list(attr_strip)))))
+    return applied
 
 
 EXTERNAL_CONSTS = {}     # modname -> {NAME: literal node}, filled by model.Program before the modules are built
@@ -1804,6 +1966,66 @@ def _parent_of(root, node):
             if c is node:
                 return p
     return None
+
+
+def publish_fresh_containers(fn, cands):
+    """`a = {}` (a new local, a fresh empty container) followed — before any other use of a — by `CHAIN = a` in the same
+    block: from then on a *is* CHAIN (the same object).  The binding is dropped, CHAIN receives the fresh container and
+    every later `a` reads CHAIN (Y04: `mins_by_field = {}; lvcells['mins'] = mins_by_field; mins_by_field[f] = v`)"""
+    applied = []
+    again = True
+    while again:
+        again = False
+        counts = _bind_counts(fn)
+        for blk in VarInliner(fn, cands)._blocks(fn):
+            for i, st in enumerate(blk):
+                if not (isinstance(st, ast.Assign) and len(st.targets) == 1 and isinstance(st.targets[0], ast.Name)):
+                    continue
+                y = st.targets[0].id
+                v = st.value
+                fresh = (isinstance(v, (ast.Dict, ast.List)) and not (v.keys if isinstance(v, ast.Dict) else v.elts)) or \
+                    (isinstance(v, ast.Call) and isinstance(v.func, ast.Name) and v.func.id in ("dict", "list") and not v.args
+                     and not v.keywords)
+                if y not in cands or counts.get(y, 0) != 1 or not fresh:
+                    continue
+                j = None
+                for k in range(i + 1, len(blk)):
+                    t = blk[k]
+                    if isinstance(t, ast.Assign) and len(t.targets) == 1 and isinstance(t.value, ast.Name) and t.value.id == y \
+                            and isinstance(t.targets[0], (ast.Attribute, ast.Subscript)) and _projectable(t.targets[0]):
+                        j = k
+                        break
+                    if any(isinstance(x, ast.Name) and x.id == y for x in ast.walk(t)):
+                        break
+                if j is None:
+                    continue
+                chain = blk[j].targets[0]
+                ctext = ast.unparse(chain)
+                # the chain is not re-bound afterwards, nor are the names it is built from
+                later = [x for t in blk[j + 1:] for x in ast.walk(t)]
+                roots = {x.id for x in ast.walk(chain) if isinstance(x, ast.Name)}
+                if any(isinstance(x, (ast.Attribute, ast.Subscript)) and isinstance(x.ctx, (ast.Store, ast.Del)) and
+                       ast.unparse(x) == ctext for x in later) or \
+                        any(isinstance(x, ast.Name) and isinstance(x.ctx, (ast.Store, ast.Del)) and x.id in roots for x in later):
+                    continue
+                inside = {id(x) for t in blk[i:] for x in ast.walk(t)}
+                if any(isinstance(x, ast.Name) and x.id == y and id(x) not in inside for x in ast.walk(fn)):
+                    continue
+                load = copy.deepcopy(chain)
+                for x in ast.walk(load):
+                    if hasattr(x, "ctx"):
+                        x.ctx = ast.Load()
+                blk[j].value = v
+                for t in blk[j + 1:]:
+                    _SubstLoad(y, load).visit(t)
+                    ast.fix_missing_locations(t)
+                del blk[i]
+                applied.append(y)
+                again = True
+                break
+            if again:
+                break
+    return applied
 
 
 def untuple_new_locals(fn, cands):
@@ -2074,6 +2296,8 @@ def inline_new_locals(relpath, tree):
             applied.append((q, "untuple", v))
         params, local = alpha.function_locals(fn, g)
         cands = {n for n in local if n not in r["locals"] and n not in r["params"]}
+        for v in publish_fresh_containers(fn, cands):
+            applied.append((q, "publish", v))
         for v in reuse_loop_names(fn):
             applied.append((q, "loop-name", v))
         for v in coalesce_aliases(fn, cands):
